@@ -14,6 +14,7 @@ the body are checked against the declared `heap` list through the interpreter's 
 """
 import ast
 import z3
+from .sym import Unsupported
 from . import sym
 from .sym import SInt, SBool, is_sym
 from .interp import _Break, _Continue, PyRaise
@@ -78,9 +79,14 @@ class L:
         self.assuming = assuming     # True when the invariant is being assumed (hints may be registered)
 
     def v(self, name):
+        if name not in self.frame.locals:
+            # the loop was rewritten (a local renamed or removed): the invariant no longer describes it -> undecided, not an error
+            raise Unsupported(f"the loop invariant refers to the local '{name}', which this loop no longer has")
         return self.frame.locals[name]
 
     def old(self, name):
+        if name not in self.entry:
+            raise Unsupported(f"the loop invariant refers to the entry value of '{name}', which this loop no longer has")
         return self.entry[name]
 
     def has(self, name):
